@@ -54,10 +54,17 @@ def build(node, leaf):
     return leaf(node)
 
 
+def tag_of(name):
+    """The tag under which an attribute is referred to in a parsed text expression: labels as users write them - with dots,
+    brackets, operators and spaces (some of them regular-expression metacharacters), one tag a 'wildcard version' of another."""
+    pool = ['a.b', 'a_b', 'Pixel Axis 0 [y]', 'flux (a+b)', 'w*', 'x^2', 'p|q', 'plain']
+    return pool[sum(ord(c) * (i + 1) for i, c in enumerate(name)) % len(pool)] + '#' + name
+
+
 def text(node):
     if isinstance(node, tuple):
         return '(%s %s %s)' % (text(node[1]), node[0], text(node[2]))
-    return node if node.isdigit() else '{%s}' % node
+    return node if node.isdigit() else '{%s}' % tag_of(node)
 
 
 def attrs(node, acc):
@@ -111,7 +118,10 @@ def check_one(tree, exp):
             m = dict(zip(names, arrs))
             return build(node, lambda x: int(x) if x.isdigit() else m[x])
         variants.append(('function', ComponentLink([cid[n] for n in names], ComponentID('fn'), using=using)))
-        variants.append(('parsed', ParsedComponentLink(ComponentID('pc'), ParsedCommand(text(node), {n: cid[n] for n in names}))))
+        try:
+            variants.append(('parsed', ParsedComponentLink(ComponentID('pc'), ParsedCommand(text(node), {tag_of(n): cid[n] for n in names}))))
+        except Exception as e:
+            return ('build_parsed', 'a link for %r' % text(node), 'raised %s: %s' % (type(e).__name__, e))
         for vname, link in variants:
             w['n'] += 1
             label = 'e%d' % w['n']
